@@ -38,10 +38,65 @@ def outStr : Out → String
   | .tag true t => s!"tag={t}"
   | .tag false t => s!"backend={t}"
 
+
+/-- target facts the provided trait methods depend on (`to_ne_bytes`, `usize`), from the cfg line -/
+def parseTarget (s : String) : StdT.Target :=
+  let kv := (s.splitOn " ").filterMap fun t => match t.splitOn "=" with
+    | [k, v] => some (k, v) | _ => none
+  let get (k : String) : String := ((kv.find? (·.1 == k)).map (·.2)).getD ""
+  { bigEndian := get "endian" == "big", ptrBytes := (get "ptr").toNat?.getD 64 / 8 }
+
+def parseIntKind? : String → Option StdT.IntKind
+  | "u8" | "i8" => some .w8 | "u16" | "i16" => some .w16 | "u32" | "i32" => some .w32
+  | "u64" | "i64" => some .w64 | "u128" | "i128" => some .w128 | "usize" | "isize" => some .wptr
+  | _ => none
+
+/-- u32 values travel as little-endian groups of four bytes in the protocol -/
+def groupU32 : List (BitVec 8) → List Nat
+  | a :: b :: c :: d :: rest => (a.toNat + 256 * b.toNat + 65536 * c.toNat + 16777216 * d.toNat) :: groupU32 rest
+  | _ => []
+
+/-- the value grammar of the `hashone` / `hashrec` / `hwval` ops -/
+def parseVal? (tok : String) : Option StdT.Val :=
+  match tok.splitOn ":" with
+  | ["unit"] => some .unit
+  | ["bool", "0"] => some (.bool false)
+  | ["bool", "1"] => some (.bool true)
+  | ["char", x] => (parseHexNat? x).map .char
+  | ["bytes", x] => (parseBytes? x).map .bytes
+  | ["str", x] => (parseBytes? x).map .str
+  | ["u32s", x] => do
+    let b ← parseBytes? x
+    if b.length % 4 ≠ 0 then none else pure (.u32s (groupU32 b))
+  | ["pss", a, b] => do pure (.pair (.str (← parseBytes? a)) (.str (← parseBytes? b)))
+  | ["pib", k, v, b] => do pure (.pair (.int (← parseIntKind? k) (← parseHexNat? v)) (.bytes (← parseBytes? b)))
+  | ["ou64", "none"] => some (.opt none)
+  | ["ou64", x] => (parseHexNat? x).map fun v => .opt (some (.int .w64 v))
+  | ["obytes", "none"] => some (.opt none)
+  | ["obytes", x] => (parseBytes? x).map fun b => .opt (some (.bytes b))
+  | [k, x] => do pure (.int (← parseIntKind? k) (← parseHexNat? x))
+  | _ => none
+
+def writesStr (ws : List (List (BitVec 8))) : String :=
+  if ws.isEmpty then "nowrites" else "|".intercalate (ws.map bytesHex)
+
 /-- `none` = malformed line; `some (none, s)` = answered by the driver itself with `s` -/
-def parseOp (env : Env) (line : String) : Option (Option Op × String) :=
+def parseOp (env : Env) (tgt : StdT.Target) (line : String) : Option (Option Op × String) :=
   match line.trimAscii.toString.splitOn " " with
   | ["reset"] => some (some .reset, "")
+  | ["hashone", a, b, c, d, v] => do
+    let k ← parseKey? a b c d; let val ← parseVal? v
+    pure (some (.hashOne k (StdT.writes tgt val)), "")
+  | ["hashrec", v] => do
+    let val ← parseVal? v
+    pure (none, writesStr (StdT.writes tgt val))
+  | "iowritev" :: hs :: bufs => do
+    let h ← hs.toNat?
+    if bufs.isEmpty || bufs.length > 4 then none else
+    let bs ← bufs.mapM parseBytes?
+    if !env.cfg.std then pure (none, "unsupported")
+    -- `write_vectored` repeated until everything is consumed: the bytes of all buffers, in order
+    else pure (some (.writes h [bs.flatten]), "")
   | [op, hs, sel, a, b, c, d] =>
     if op == "new" || op == "fnew" then do
       let h ← hs.toNat?; let s ← parseSel? sel; let k ← parseKey? a b c d
@@ -66,7 +121,13 @@ def parseOp (env : Env) (line : String) : Option (Option Op × String) :=
       pure (some (.restoreH h s (op == "frestoreh") j), "")
     else none
   | [op, hs, x] =>
-    if op == "clone" || op == "clonefrom" then do
+    if op == "hwval" then do
+      let h ← hs.toNat?; let val ← parseVal? x
+      pure (some (.writes h (StdT.writes tgt val)), "")
+    else if op == "writefmt" then do
+      let h ← hs.toNat?; let d ← parseBytes? x
+      if !env.cfg.std then pure (none, "unsupported") else pure (some (.writes h [d]), "")
+    else if op == "clone" || op == "clonefrom" then do
       let h ← hs.toNat?; let j ← x.toNat?
       pure (some (.clone h j), "")
     else if op == "fin" then do
@@ -117,23 +178,24 @@ def queryLine (env : Env) (line : String) : Option String :=
   | ["nosimd"] => some (if decide (NoSimdPermitted env.cfg env.cpu) then "yes" else "no")
   | _ => none
 
-def stepLine (env : Env) (w : World) (line : String) : World × String :=
+def stepLine (env : Env) (tgt : StdT.Target) (w : World) (line : String) : World × String :=
   if line.trimAscii.toString == "" then (w, "") else
   match ((specLine line).orElse (fun _ => queryLine env line)).orElse
       (fun _ => if env.cfg.arch == .x86_64 && env.cpu.avx2 then intrinLine (line.trimAscii.toString.splitOn " ")
                 else (if (line.trimAscii.toString.splitOn " ").headD "" == "intrin" then some "none" else none)) with
   | some s => (w, s)
   | none =>
-    match parseOp env line with
+    match parseOp env tgt line with
     | none => (w, "bad-op")
     | some (none, s) => (w, s)
     | some (some op, _) =>
       -- `NeonHash` implements neither `core::hash::Hasher` nor `std::io::Write` (src/aarch64.rs has
       -- no impl_write!/impl_hasher!): the runner reports `unsupported` for trait calls on it
       let tok := (line.trimAscii.toString.splitOn " ").headD ""
-      let viaTrait := tok == "hwrite" || tok == "iowrite" || tok == "writeall" || tok == "iocopy" || tok == "finish" || tok == "flush"
+      let viaTrait := tok == "hwrite" || tok == "iowrite" || tok == "writeall" || tok == "iocopy" || tok == "finish" || tok == "flush" ||
+        tok == "hwval" || tok == "iowritev" || tok == "writefmt"
       let hnd : Option Nat := match op with
-        | .append h _ | .ioWrite h _ | .finish h | .flush h => some h
+        | .append h _ | .ioWrite h _ | .finish h | .flush h | .writes h _ => some h
         | _ => none
       match viaTrait, hnd.bind (World.get w) with
       | true, some x => if !x.auto && x.h.backend == .neon then (w, "unsupported") else
@@ -143,16 +205,16 @@ def stepLine (env : Env) (w : World) (line : String) : World × String :=
         let (w', o) := step env w op
         (w', outStr o)
 
-partial def loop (env : Env) (h : IO.FS.Stream) (out : IO.FS.Stream) (w : World) : IO Unit := do
+partial def loop (env : Env) (tgt : StdT.Target) (h : IO.FS.Stream) (out : IO.FS.Stream) (w : World) : IO Unit := do
   let line ← h.getLine
   if line.isEmpty then return ()
   if line.startsWith "#" then
     out.putStrLn line.trimAscii.toString
-    loop env h out w
+    loop env tgt h out w
   else
-    let (w', o) := stepLine env w line
+    let (w', o) := stepLine env tgt w line
     out.putStrLn o
-    loop env h out w'
+    loop env tgt h out w'
 
 /-- parse the `cfg k=v …` line printed by a runner's `--info` -/
 def parseEnv (s : String) : Env :=
@@ -171,6 +233,9 @@ def main (args : List String) : IO Unit := do
   let env : Env := match args with
     | [a] => parseEnv a
     | _ => { cfg := { arch := .other, std := true, tfSse41 := false, tfAvx2 := false }, cpu := { sse41 := false, avx2 := false } }
+  let tgt : StdT.Target := match args with
+    | [a] => parseTarget a
+    | _ => { bigEndian := false, ptrBytes := 8 }
   let stdin ← IO.getStdin
   let stdout ← IO.getStdout
-  loop env stdin stdout []
+  loop env tgt stdin stdout []
